@@ -189,7 +189,7 @@ def render(case, idx, rng):
                 vo.append(t)
             st = case["v1style"] if key == "v1" else "unit"
             sfx = {"unit": "", "newtype": "(%s)" % STRING, "struct": " { %s: %s, #[darling(default)] %s: u8 }" % (pool[3], STRING, pool[4]),
-                   "tuple2": "(%s, u8)" % STRING}[st]
+                   "tuple2": "(%s, u8)" % STRING, "tuple0": "()", "struct0": " {}"}[st]
             vs.append("    %s%s%s," % (("#[darling(%s)] " % ", ".join(vo)) if vo else "", vn[vi], sfx))
         if generic:
             vs.append("    %s(%s)," % (vn[2], tp))
